@@ -153,7 +153,7 @@ TOP = {
     "shape": "type", "shape2": "type", "callback": "absinterface", "config": "namelist",
     # procedures (incl. generic interfaces and the constructor interface)
     "area": "proc", "scale": "proc", "setup": "proc", "area_impl": "proc", "done": "proc", "make_shape": "proc", "combine_i": "proc",
-    "combine": "proc", "perimeter": "proc", "later": "proc",
+    "combine": "proc", "perimeter": "proc", "later": "proc", "hidden_proc": "proc",
 }
 # children: parent -> [(name, subkind)]
 CHILDREN = {
@@ -209,7 +209,7 @@ def obj_of(project, path):
 
 # ---- reference catalogue -----------------------------------------------------------
 
-def catalogue():
+def catalogue(private=False):
     """[(spelling, expected: dict context-class -> abstract path | 'ABSENT' | 'PARENT:<path>')]
     context classes: 'geo' (doc of module geo), 'shape' (doc of type shape), 'scale', 'sizevar' (module variable: parent geo),
     'comp' (component of shape: parent shape), 'main', 'global' (project file, static pages, file doc, other module)."""
@@ -268,8 +268,8 @@ def catalogue():
     add("[[nosuch]]", "ABSENT")
     add("[[nosuch(module)]]", "ABSENT")
     add("[[geo:nosuch]]", "PARENT:geo")
-    add("[[hidden_proc]]", "ABSENT")
-    add("[[geo:hidden_var]]", "PARENT:geo")
+    add("[[hidden_proc]]", "hidden_proc" if private else "ABSENT")
+    add("[[geo:hidden_var]]", "geo/hidden_var(variable)" if private else "PARENT:geo")
     return [c for c in C if c is not None]
 
 
@@ -366,7 +366,7 @@ def aborting_spellings(st: Stats, cat, opts_name, opts, stratum):
 
 
 def run_layout(st: Stats, layout, opts_name, opts, _exclude=None):
-    cat = catalogue()
+    cat = catalogue(private="private" in (opts.get("display") or []))
     files, body = build_project(cat, layout, _exclude or set())
     o = dict(page_dir="pages", incl_src=True, search=False)
     o.update(opts)
@@ -445,7 +445,7 @@ def run_layout(st: Stats, layout, opts_name, opts, _exclude=None):
                 if "[[geo]]" not in pre.replace(" ", ""):
                     st.violation("reference-in-code-block-substituted", stratum, dict(layout=layout, options=opts_name, ctx=m.group(1), spelling="```[[geo]]```"), dict(inp0, page=rel), pre[-80:], "[[geo]] verbatim")
         # warnings for absent targets
-        for sp in ("nosuch", "hidden_proc"):
+        for sp in ("nosuch",) + (() if "private" in (opts.get("display") or []) else ("hidden_proc",)):
             if f"[[{sp}]]" not in r.log and sp not in r.log:
                 st.violation("absent-target-without-warning", stratum, dict(layout=layout, options=opts_name, ctx="", spelling=sp), inp0, r.log[-200:], f"a warning naming {sp}")
         st.states.add(core.digest(sorted((k, tuple(sorted(v))) for k, v in seen.items())))
